@@ -70,9 +70,12 @@ def cfg_text(inst, props, depth=None, extra=None):
         lines.append("  %s %s" % (k, v) if v.startswith("<-") else "  %s = %s" % (k, v))
     lines += ["CONSTRAINT Constr", "VIEW View", "CHECK_DEADLOCK FALSE", "INVARIANT GhostAgrees",
               "INVARIANT StoreInv", "INVARIANT StoreInvCrash", "INVARIANT ConnInv"]
-    if "P13" in props or "P10" in props:
-        # from every reachable state the store can be drained (MBServer!Drains)
+    if "P13" in props or "P10" in props or "P15" in props:
+        # from every reachable state the store can be drained (MBServer!Drains), and draining writes
+        # exactly one usage record per stored nameplate / mailbox (MBServer!DrainsUsage)
         lines.append("INVARIANT Drains")
+        if c.get("UsageOn") == "TRUE":
+            lines.append("INVARIANT DrainsUsage")
     for p in props:
         lines.append("PROPERTY %s" % p)
     return "\n".join(lines) + "\n", c
